@@ -23,6 +23,10 @@ class Reject(Exception):
     pass
 
 
+class NeedChoice(Exception):
+    """raised when a planned run meets more unspecified conditions than the plan has readings for"""
+
+
 class DontCare(Exception):
     pass
 
@@ -48,8 +52,9 @@ def rcond(c):
     k = c[0]
     if k == 'num':
         return str(c[1])
-    if k == 'cmp':           # ('cmp', lhs, op, rhs) with lhs/rhs int or symbol name
-        return f'{c[1]} {c[2]} {c[3]}'
+    if k == 'cmp':           # ('cmp', lhs, op, rhs) with lhs/rhs int, symbol name or ('add', x, y, ...)
+        side = lambda x: '+'.join(str(t) for t in x[1:]) if isinstance(x, tuple) else str(x)
+        return f'{side(c[1])} {c[2]} {side(c[3])}'
     if k == 'sym':
         return c[1]
     raise ValueError(c)
@@ -185,6 +190,8 @@ class Params:
 class RefAsm:
     def __init__(self, params: Params, files: dict, main='main.asm', incdirs=(), defects=()):
         self.defects = set(defects)      # named defect modes reproducing recorded known findings
+        self.dc_plan = None              # readings for conditions on undefined symbols (see eval_cond)
+        self.dc_used = 0
         self.p = params
         self.files = files
         self.main = main
@@ -292,6 +299,23 @@ class RefAsm:
 
     # -- conditions ------------------------------------------------------------------------------
     def eval_cond(self, c):
+        """The statement does not say what a condition that mentions an undefined symbol evaluates to (or whether it is an error).
+        With a plan (assemble_alternatives) each such condition takes the next planned reading - True, False or 'reject' -
+        so that everything else in the program is still judged; without a plan the program is not judged at all."""
+        try:
+            return self._eval_cond(c)
+        except DontCare as e:
+            if self.dc_plan is None or 'undefined symbol' not in str(e):
+                raise
+            i = self.dc_used
+            self.dc_used += 1
+            if i >= len(self.dc_plan):
+                raise NeedChoice()
+            if self.dc_plan[i] == 'reject':
+                raise Reject('condition on an undefined symbol (read as an error)')
+            return self.dc_plan[i]
+
+    def _eval_cond(self, c):
         k = c[0]
         if k == 'num':
             return c[1] != 0
@@ -321,6 +345,8 @@ class RefAsm:
     def _operand(self, x):
         if isinstance(x, int):
             return x
+        if isinstance(x, tuple):            # ('add', a, b, ...)
+            return sum(self._operand(t) for t in x[1:])
         if x not in self.symbols:
             raise DontCare('condition on an undefined symbol')
         return self._symnum(x)
@@ -658,3 +684,27 @@ class RefAsm:
 
 def assemble(params, files, main='main.asm', incdirs=(), defects=()):
     return RefAsm(params, files, main, incdirs, defects).run()
+
+
+def assemble_alternatives(params, files, main='main.asm', incdirs=(), defects=(), max_choices=2):
+    """-> list of Results, one per combination of readings of the conditions that mention an undefined symbol (each read as
+    true, as false, or as an error).  A program without such conditions has exactly one.  More than max_choices such
+    conditions: a single DC result."""
+    out = []
+    todo = [()]
+    while todo:
+        plan = todo.pop()
+        r = RefAsm(params, files, main, incdirs, defects)
+        r.dc_plan = plan
+        try:
+            res = r.run()
+        except NeedChoice:
+            if len(plan) >= max_choices:
+                dc = Result()
+                dc.status, dc.reason = 'DC', 'more conditions on undefined symbols than readings are enumerated for'
+                return [dc]
+            todo += [plan + (True,), plan + (False,), plan + ('reject',)]
+            continue
+        res.plan = plan
+        out.append(res)
+    return out
